@@ -283,6 +283,23 @@ pub mod sup {
         *v ^ 0x80
     }
 
+    // ---- type-agnostic methods used when a trait is added only as a bystander (C15) ----
+    pub fn eq_any<T>(_a: &T, _b: &T) -> bool {
+        true
+    }
+    pub fn cmp_any<T>(_a: &T, _b: &T) -> Ordering {
+        Ordering::Equal
+    }
+    pub fn pcmp_any<T>(_a: &T, _b: &T) -> Option<Ordering> {
+        Some(Ordering::Equal)
+    }
+    pub fn hash_any<T, H: core::hash::Hasher>(_v: &T, h: &mut H) {
+        h.write_u8(9)
+    }
+    pub fn fmt_any<T>(_v: &T, f: &mut core::fmt::Formatter<'_>) -> core::fmt::Result {
+        f.write_str("?")
+    }
+
     // ---- recording hasher: the recorded sequence *is* the data fed, for any hasher ----
     pub const REC_CAP: usize = 12;
     #[derive(Clone, Copy, PartialEq, Eq, Debug)]
